@@ -215,7 +215,7 @@ static void fill(int l, int st)
 static void pr32(const char *k, unsigned v) { printf("\"%s\":[%u,%u]", k, v >> 16, v & 0xffff); }
 static ringbuf_t hrb;
 static void hstate(void) { printf(","); pr32("r", *(volatile unsigned *)&hrb.readi); printf(","); pr32("w", *(volatile unsigned *)&hrb.writei); }
-static void huge_case(unsigned l, unsigned r0, unsigned w0, unsigned pre)
+static void huge_case(size_t l, unsigned r0, unsigned w0, unsigned pre)
 {
 	size_t maplen = (size_t)l + 2 * 4096;
 	maplen = (maplen + 4095) & ~(size_t)4095;
@@ -238,7 +238,7 @@ static void huge_case(unsigned l, unsigned r0, unsigned w0, unsigned pre)
 	ringbuf_init(&hrb, ringp, l);
 	atomic_store(&hrb.readi, r0);
 	atomic_store(&hrb.writei, w0);
-	printf("{\"e\":\"BPlace\","); pr32("len", l); hstate(); printf(","); pr32("pre", pre); printf("}\n");
+	printf("{\"e\":\"BPlace\",\"len\":[%u,%u]", (unsigned)(l >> 16), (unsigned)(l & 0xffff)); hstate(); printf(","); pr32("pre", pre); printf("}\n");
 	static const int script[] = { 'E', 'P', 'P', 'E', 'G', 'G', 'P', 'P', 'P', 'G', 'E', 'G', 'G', 'G', 'E', 'P', 'G' };
 	int d = 7;
 	for (unsigned i = 0; i < sizeof(script) / sizeof(script[0]); i++) {
@@ -253,7 +253,13 @@ static void huge_case(unsigned l, unsigned r0, unsigned w0, unsigned pre)
 }
 static void huge(void)
 {
-	static const unsigned lens_[] = { 0x80000000u + 4096, 0x80000000u, 0x80000001u, 0x7ffffff8u, 0xc0000000u, 0xfffff000u };
+	/* a ring of exactly 2^32 bytes: the largest the 32-bit indices can address (they wrap by themselves) */
+	{
+		size_t L = (size_t)1 << 32;
+		huge_case(L, 0, 0xffffffffu, 0xffffffffu); huge_case(L, 0, 0xfffffffeu, 0xfffffffeu); huge_case(L, 0xffffffffu, 0xfffffffeu, 0xffffffffu);
+		huge_case(L, 0xffffffffu, 0xffffffffu, 0); huge_case(L, 0xfffffffeu, 0xffffffffu, 1); huge_case(L, 1, 0, 0xffffffffu); huge_case(L, 5, 5, 0);
+	}
+	static const unsigned lens_[] = { 0x80000000u + 4096, 0x80000000u, 0x80000001u, 0x7ffffff8u, 0xc0000000u, 0xfffff000u, 0xffffffffu };
 	for (unsigned k = 0; k < sizeof(lens_) / sizeof(lens_[0]); k++) {
 		unsigned l = lens_[k];
 		huge_case(l, 0, l - 1, l - 1);          /* full, the write index at the last slot */
